@@ -23,6 +23,23 @@ func schemaFingerprint(s *jsonapi.Schema) string {
 // SharedOp runs one of the read-only operations of C12 against the shared schema with
 // thread-local inputs derived from r. Used by the `shared` suite and by cmd/racer.
 func SharedOp(r *Rng, s *jsonapi.Schema, ts []stype, o *Out) string {
+	if s.HasType("bare") && r.chance(1, 6) {
+		// a type whose Attrs / Rels maps are nil
+		switch r.IntN(4) {
+		case 0:
+			_ = s.GetType("bare")
+			return "GetType(bare)"
+		case 1:
+			_, _ = jsonapi.NewURLFromRaw(s, "/bare?sort=id")
+			return "NewURLFromRaw(bare)"
+		case 2:
+			_, _ = jsonapi.UnmarshalDocument([]byte(`{"data":{"id":"1","type":"bare"}}`), s)
+			return "UnmarshalDocument(bare)"
+		default:
+			_, _ = jsonapi.UnmarshalPartialResource([]byte(`{"id":"1","type":"bare"}`), s)
+			return "UnmarshalPartialResource(bare)"
+		}
+	}
 	st := ts[r.IntN(len(ts))]
 	switch r.IntN(11) {
 	case 0:
@@ -77,9 +94,19 @@ func SharedOp(r *Rng, s *jsonapi.Schema, ts []stype, o *Out) string {
 	}
 }
 
+// addBareTypes adds soft types whose maps are (partly) nil, as a hand-written
+// Type{Name: …} or one built with AddRel only has.
+func addBareTypes(r *Rng, s *jsonapi.Schema) {
+	_ = s.AddType(jsonapi.Type{Name: "bare"})
+	onlyRels := jsonapi.Type{Name: "joins"}
+	_ = onlyRels.AddRel(jsonapi.Rel{FromType: "joins", FromName: "left", ToOne: true, ToType: "bare"})
+	_ = s.AddType(onlyRels)
+}
+
 func suiteShared(r *Rng, n int, thorough bool, o *Out) {
 	for c := 0; c < n/20+1; c++ {
 		s, ts := genSchema(r, o)
+		addBareTypes(r, s)
 		for k := 0; k < 20; k++ {
 			before := schemaFingerprint(s)
 			name := ""
